@@ -380,6 +380,9 @@ def postprocess(case, impl):
 
 
 def classify(r):
+    # the one recorded finding: a line scrolled out of the window leaves a blank row (the driver names exactly that situation)
+    if "text-scrolled-out-of-the-window-and-no-dots-mark-the-cut" in r["verdict"]:
+        return "C11-scrolled-out-line-leaves-a-blank-row"
     return None
 
 
